@@ -50,14 +50,14 @@ m={"version":1,"setup_cmd":setup,
  "hooks":{"guard":"verif","enable":"none: the checks are static and read /repo's source as it is; no hooks or instrumentation are added","baseline_off_cmd":"cd /repo && GOFLAGS=-mod=mod go test -vet=off -count=1 ./...","source_commits":[],"add_only":True},
  "engines":[{"name":"tdxlint","path":"checker/","serves_properties":sorted(claims),"kind_free_text":"repository-specific static analyser over go/packages + go/ssa: provenance terms, pruned-CFG dominance (must-pass-through gates), access-path heap, layout tiling, bounds/nil obligations, effects, tables"}],
  "checks":[],"not_applicable":[],
- "notes":"All checks are static analysis of /repo's current source (go/packages + go/ssa); nothing from the repository is executed. thorough = quick rules on four build configurations + sensitivity self-test (mutant / benign corpus applied to scratch copies, analysed statically). See DESIGN.md."}
+ "notes":"All checks are static analysis of /repo's current source (go/packages + go/ssa); nothing from the repository is executed. thorough = quick rules on four build configurations + sensitivity self-test (mutant / seeded / benign corpus and whole-repository benign rewrites applied to scratch copies, analysed statically). See DESIGN.md."}
 for p in props:
     i=p['id']
     if i in claims:
         tech,text=claims[i]
         m["checks"].append({"property_id":i,
           "quick_cmd":"bin/tdxlint -property %s -tier quick"%i,
-          "thorough_cmd":"bin/tdxlint -property %s -tier thorough && python3 selftest/run.py %s"%(i,i),
+          "thorough_cmd":"bin/tdxlint -property %s -tier thorough && python3 selftest/run.py %s && python3 selftest/benign_global.py '' %s"%(i,i,i),
           "evidence_file":"evidence/%s.json"%i,
           "replay_cmd_template":"bin/tdxlint -explain {path}",
           "engine":"tdxlint",
